@@ -8,7 +8,7 @@ import z3
 
 from . import state as st
 from .values import (FIN, NONE, SArr, SBool, SFloat, SFunc, SInt, SList, SRecord, STuple, Unsupported,
-                     And, fresh_name, int_sort, to_bool, to_float, to_int)
+                     And, Implies, fresh_name, int_sort, to_bool, to_float, to_int)
 
 # ------------------------------------------------------------------ sort specs
 
@@ -67,6 +67,31 @@ class Fn(Sort):
 
 class NoneSort(Sort):
     pass
+
+
+class Const(Sort):
+    """a parameter whose value is fixed by the configuration (python-level polymorphism / flags)"""
+
+    def __init__(self, value):
+        self.value = value
+
+    def make(self, state, name):
+        v = self.value
+        if isinstance(v, bool):
+            return SBool(v), []
+        if isinstance(v, int):
+            return SInt(v), []
+        if v is None:
+            return NONE, []
+        return v, []
+
+    def gen(self, rng, config):
+        v = self.value
+        if isinstance(v, bool):
+            return {'k': 'bool', 'v': v}
+        if isinstance(v, int):
+            return {'k': 'int', 'v': v}
+        return {'k': 'none'}
 
 
 def make_symbolic(spec, state, name):
@@ -242,9 +267,30 @@ class ArrView:
 
 
 def same_array(r, x):
-    """r IS the array x (same buffer, same window) - for functions returning views of existing buffers"""
+    """r IS the array x (same buffer, same window) - for functions returning views of existing buffers.
+    When the two are different buffers (a concrete replay: the real function's result was copied out), it means
+    equal length and equal cells."""
+    rv = r if isinstance(r, ArrView) else None
+    xv = x if isinstance(x, ArrView) else None
     ra, xa = (r.arr if isinstance(r, ArrView) else r), (x.arr if isinstance(x, ArrView) else x)
-    if ra.base is not xa.base or len(ra.dims) != len(xa.dims):
+    if ra.base is not xa.base:
+        if rv is None or xv is None or ra.ndim != 1 or xa.ndim != 1:
+            return SBool(False)
+        from .values import forall
+
+        def eq(k):
+            a, b = rv[k], xv[k]
+            return a.same(b) if isinstance(a, SFloat) else (a.iff(b) if isinstance(a, SBool) else a == b)
+        n = rv.n
+        if n.concrete and xv.n.concrete:
+            if n.v != xv.n.v:
+                return SBool(False)
+            out = SBool(True)
+            for k in range(n.v):
+                out = out & eq(SInt(k))
+            return out
+        return And(n == xv.n, forall('int', lambda k: Implies(And(k >= 0, k < n), eq(k))))
+    if len(ra.dims) != len(xa.dims):
         return SBool(False)
     out = SBool(True)
     for d, e in zip(ra.dims, xa.dims):
